@@ -183,6 +183,7 @@ class FnSpec:
             else:
                 hints_skipped += 1
         # loops
+        n_loops = count_loops(body)
         if self.loops:
             body = insert_loop_specs(body, self.loops, where, self.loops_optional)
         contract = ""
@@ -199,10 +200,34 @@ class FnSpec:
             log[k] = log.get(k, 0) + v
         diff = "".join(difflib.unified_diff(lx.strip_comments(real_fn).splitlines(True), out.splitlines(True),
                                             f"{self.file}:{line} (real, comments stripped)", f"verus:{self.out_name}", n=2))
-        return out, {"file": self.file, "line": line, "fn": self.name, "rules": flog, "diff": diff, "hints_skipped": hints_skipped}
+        # loops in the (edited) real text for which the contract holds no invariant: Verus cannot see through them, so a failed proof of this
+        # function decides nothing (reported UNDECIDED: "contract needs review"), it is never a violation
+        loops_without_invariant = max(0, n_loops - len(self.loops))
+        return out, {"file": self.file, "line": line, "fn": self.name, "rules": flog, "diff": diff, "hints_skipped": hints_skipped,
+                     "loops_without_invariant": loops_without_invariant}
 
 
 LOOP_RE = re.compile(r"\b(loop|while|for)\b")
+
+
+def count_loops(body):
+    """number of loop heads (`loop {`, `while .. {`, `for .. {`) in a function body"""
+    m = lx.mask(body)
+    n = 0
+    for mm in LOOP_RE.finditer(m):
+        k, depth = mm.end(), 0
+        while k < len(m):
+            ch = m[k]
+            if ch in "([":
+                depth += 1
+            elif ch in ")]":
+                depth -= 1
+            elif ch == "{" and depth == 0:
+                n += 1; break
+            elif ch == ";" and depth == 0:
+                break
+            k += 1
+    return n
 
 
 def insert_loop_specs(body, loops, where, optional=False):
